@@ -283,10 +283,17 @@ fn task_message(message: &str, seconds: usize, max_cols: usize) -> String {
     };
     let mut out = message.to_owned();
     if out.len() + time_note.len() >= max_cols {
-        out.truncate(max_cols - time_note.len() - 3);
+        // Cut at a character boundary; on narrow terminals there may be no
+        // room for any of the message.
+        let max_len = max_cols.saturating_sub(time_note.len() + 3);
+        let len = truncate(&out, max_len).len();
+        out.truncate(len);
         out.push_str("...");
     }
     out.push_str(&time_note);
+    // Even "..." plus the time note may be wider than a very narrow terminal.
+    let len = truncate(&out, max_cols).len();
+    out.truncate(len);
     out
 }
 
